@@ -33,6 +33,7 @@ fn cfg() -> BroadCfg {
         max_fields: 5,
         help: HelpGen::None,
         version: true,
+        odd_groups: true,
         ..BroadCfg::default()
     }
 }
